@@ -15,7 +15,7 @@ Q = "twisted.web._http2."
 TECHNIQUE = "finite-domain interpretation of the frame clamp + queue/wake-up discipline on the CFG"
 EXPLANATION = (
     "Decides (the module is parsed, never imported): (a) the data branch of H2Connection._sendPrioritisedData is interpreted with a model queue for every "
-    "chunk length 0..6, max frame size 0..4 and flow-control window 0..4: at most one DATA frame is sent, never longer than min(max_outbound_frame_size, "
+    "chunk length 0..6, max frame size 0..4 and flow-control window -3..4: at most one DATA frame is sent, never longer than min(max_outbound_frame_size, "
     "window), nothing is sent when that is 0, and `sent + requeued` is the original chunk with the remainder put back at the FRONT of the queue; END_STREAM "
     "is sent only when the sentinel is popped; (b) queue discipline: writers append (data / sentinel, payload unchanged, writeSequence in order), the loop "
     "pops from the left; (c) the loop never dies silently: every normal path returns on not-_stillProducing, parks on a fresh _sendingDeferred or on "
@@ -23,10 +23,9 @@ EXPLANATION = (
     "blocked in the priority tree only when its queue is empty (which is what makes _handleWindowUpdate's silent unblock sufficient); (d) back-pressure: "
     "flowControlBlocked() when remainingOutboundWindow <= 0, which is window minus queued bytes; windowUpdated() reaches every affected stream and resumes a "
     "paused producer exactly when the remaining window is > 0, keeping the _producerProducing flag coupled with pause/resume. Not decided: liveness under "
-    "arbitrary schedules, byte-level equality at the peer, negative windows after a SETTINGS shrink (h2 refuses the frame; outside the modelled domain)."
+    "arbitrary schedules, byte-level equality at the peer.  Known finding F29: with a NEGATIVE window (peer shrinks SETTINGS_INITIAL_WINDOW_SIZE) the clamp slices wrongly and the loop dies."
 )
-ASSUMPTIONS = ["h2's local_flow_control_window / max_outbound_frame_size report the peer's limits", "the priority tree only yields unblocked streams",
-               "flow-control windows are >= 0 when a stream is scheduled (negative windows after SETTINGS_INITIAL_WINDOW_SIZE shrink are not modelled)"]
+ASSUMPTIONS = ["h2's local_flow_control_window / max_outbound_frame_size report the peer's limits", "the priority tree only yields unblocked streams"]
 
 C = "H2Connection"
 QUEUE = "self._outboundStreamQueues"
@@ -111,12 +110,12 @@ def _clamp(ctx):
     pre = [s for s in f.body[:f.body.index(branch[0])] if isinstance(s, ast.Assign) and isinstance(s.targets[0], ast.Name) and
            (f.body.index(s) >= i0 or "local_flow_control_window" in src(s.value) or "max_outbound_frame_size" in src(s.value))]
     fake = ast.FunctionDef(name="_dataBranch", args=f.args, body=pre + list(data_body), decorator_list=[])
-    bad = []
+    bad, badneg = [], []
     n = 0
     try:
         for L in range(0, 7):
             for M in range(0, 5):
-                for W in range(0, 5):
+                for W in range(-3, 5):
                     n += 1
                     chunk = bytes(range(65, 65 + L))
                     qm = _Queue(chunk)
@@ -148,14 +147,20 @@ def _clamp(ctx):
                     elif L and limit and not total:
                         why = "sends nothing although the window is open"
                     if why:
-                        bad.append((L, M, W, why))
+                        (badneg if W < 0 else bad).append((L, M, W, why))
     except InterpError as e:
         raise AnalysisError(f"C29: the data branch of _sendPrioritisedData is not interpretable: {e}")
     msg = ""
     if bad:
         L, M, W, why = bad[0]
-        msg = f"chunk of {L} bytes, max_outbound_frame_size={M}, flow-control window={W}: {why} (limit {max(0, min(M, W))}); {len(bad)} of {n} cases wrong"
+        msg = f"chunk of {L} bytes, max_outbound_frame_size={M}, flow-control window={W}: {why} (limit {max(0, min(M, W))}); {len(bad)} cases wrong"
     ctx.check(not bad, "clamp/frame-within-window", q + " | <data branch>", msg, detail=f"{n} (length, max frame, window) cases")
+    msg = ""
+    if badneg:
+        L, M, W, why = badneg[0]
+        msg = (f"chunk of {L} bytes, max_outbound_frame_size={M}, flow-control window={W} (negative after the peer shrank SETTINGS_INITIAL_WINDOW_SIZE): {why}; the clamp slices with a "
+               f"negative bound (frameData[:{W}]), h2 refuses the frame with FlowControlError inside the loop, which is then never re-scheduled; {len(badneg)} cases wrong")
+    ctx.check(not badneg, "clamp/negative-window", q + " | <data branch>", msg)
     ctx.extra["finite_cases_clamp"] = n
     # the window used is that of the popped stream
     win = [s for s in pre if "local_flow_control_window" in src(s.value)]
